@@ -70,6 +70,7 @@ type c09Case struct {
 	Reps      int        `json:"reps"`
 	SharedOpt bool       `json:"sharedOpt,omitempty"` // one option slice value shared by all callers
 	ParentCB  bool       `json:"parentCB,omitempty"`  // callers derive their ctx from one parent ctx that carries a handler
+	ParentCap int        `json:"parentCap,omitempty"` // parentCB: number of handlers in the parent ctx, passed as a slice built with append (so it may have spare capacity)
 	Sched     []int      `json:"sched,omitempty"`     // interleaving given to the model
 	Seed      uint64     `json:"seed"`
 }
@@ -580,7 +581,11 @@ func c09GraphRunner(c *c09Case, r compose.Runnable[string, string]) c09Runner {
 	}
 	parent := context.Background()
 	if c.ParentCB {
-		parent = callbacks.InitCallbacks(parent, &callbacks.RunInfo{Name: "parent"}, c09Handler(&c09Log{}))
+		var hs []callbacks.Handler
+		for i := 0; i < c.ParentCap || i < 1; i++ {
+			hs = append(hs, c09Handler(&c09Log{})) // 3 appends leave len 3, cap 4
+		}
+		parent = callbacks.InitCallbacks(parent, &callbacks.RunInfo{Name: "parent"}, hs...)
 	}
 	return func(ci, rep int, phase string) (obs c09Obs) {
 		call := c.Calls[ci]
